@@ -11,8 +11,10 @@ import (
 	"hash/crc32"
 	"os"
 	"path/filepath"
+	"runtime"
 	"strings"
 	"sync"
+	"sync/atomic"
 	"time"
 
 	log "github.com/go-spring/log"
@@ -242,6 +244,22 @@ func c03Worker(w *W) {
 			return
 		}
 	}
+	// an operator runs a copy-and-truncate rotation on the plain files between the phases (logrotate's copytruncate): the file
+	// is emptied behind the appender's back; what is logged afterwards is appended to the file as it is then
+	if w.Spec.Shard%2 == 0 {
+		for _, s := range su.sinks {
+			if strings.HasPrefix(s, "file:") {
+				p := strings.TrimPrefix(s, "file:")
+				if b, err := os.ReadFile(p); err == nil {
+					_ = os.WriteFile(p+".1", b, 0644)
+					if os.Truncate(p, 0) == nil {
+						offsets[p] = 0
+						w.Count("copytruncate_rotations_between_the_phases", 1)
+					}
+				}
+			}
+		}
+	}
 	// phase 1b: short bursts. Four goroutines log one event each and return; at that moment - not later, when other
 	// traffic happens to flush something - each sink holds exactly those four lines (console: four chunks identical to the
 	// lines produced alone; files: grown by exactly their bytes).
@@ -318,8 +336,35 @@ func c03Worker(w *W) {
 			}
 		}(g)
 	}
+	// meanwhile two "bridge" goroutines (think of an adapter for another logging API) take events from the library's pool, fill
+	// them by appending to the event's field list and hand them to a logger of their own that discards them: pooled events are
+	// shared with everybody else, their field lists must not be
+	var bridgeStop atomic.Bool
+	var bw sync.WaitGroup
+	allLv := log.LevelRange{MinLevel: log.NoneLevel, MaxLevel: log.MaxLevel}
+	bridgeLogger := &log.SyncLogger{LoggerBase: log.LoggerBase{Name: "bridge", Level: allLv},
+		AppenderRefs: log.AppenderRefs{AppenderRefs: []*log.AppenderRef{{Appender: &log.DiscardAppender{}, Level: allLv}}}}
+	for b := 0; b < 2; b++ {
+		bw.Add(1)
+		go func(b int) {
+			defer bw.Done()
+			<-start
+			for i := 0; !bridgeStop.Load(); i++ {
+				e := log.GetEvent()
+				e.Level, e.Tag = log.InfoLevel, "bridge"
+				e.Fields = append(e.Fields, log.String("kind", "bridge"), log.Int("b", b), log.Int("i", i))
+				e.CtxFields = append(e.CtxFields, log.String("ctx", "bridge"))
+				bridgeLogger.Append(e)
+				if i%64 == 0 {
+					runtime.Gosched()
+				}
+			}
+		}(b)
+	}
 	close(start)
 	wg.Wait()
+	bridgeStop.Store(true)
+	bw.Wait()
 	if su.cfg != nil {
 		log.Destroy()
 	}
